@@ -6,7 +6,7 @@ PFX="$1"
 for d in seeded/${PFX}[0-9][0-9]-[ab]; do
   id=$(basename $d); prop=C${id:1:2}
   R=$(tools/mutant.sh $d/patch.diff $prop quick 2>&1 | head -1)
-  fams=$(grep -o 'family=[A-Za-z0-9_:]*' /tmp/mutant.err | sort | uniq -c | awk '{printf "%s(%s) ", $2, $1}' | sed 's/family=//g')
+  fams=$(grep -a -o 'family=[A-Za-z0-9_:]*' /tmp/mutant.err | sort | uniq -c | awk '{printf "%s(%s) ", $2, $1}' | sed 's/family=//g')
   echo "$id $R | $fams"
   python3 - "$d/meta.json" "$R | families: $fams" <<'PY'
 import json, sys
